@@ -270,3 +270,30 @@ def randomize_sidechains(atoms, rng, seqnames=None):
                     if m != b_:
                         present[m]["xyz"] = R @ (present[m]["xyz"] - o) + o
     return atoms
+
+
+EQUIVALENT_NAMES = {
+    "ASP": [("OD1", "OD2")], "ASH": [("OD1", "OD2")], "GLU": [("OE1", "OE2")], "GLH": [("OE1", "OE2")],
+    "ARG": [("NH1", "NH2")], "VAL": [("CG1", "CG2")], "LEU": [("CD1", "CD2")],
+    "PHE": [("CD1", "CD2"), ("CE1", "CE2")], "TYR": [("CD1", "CD2"), ("CE1", "CE2")],
+    "ASN": [("OD1", "ND2")], "GLN": [("OE1", "NE2")], "HIS": [("ND1", "CD2"), ("CE1", "NE2")],
+}
+
+
+def swap_names(atoms, res_index, pairs):
+    """exchange the coordinates of the named atom pairs of one residue (the other labelling of chemically equivalent
+    positions, or the flipped amide / imidazole)"""
+    by = {a["name"]: a for a in atoms if a.get("res_index") == res_index}
+    for p, q in pairs:
+        if p in by and q in by:
+            by[p]["xyz"], by[q]["xyz"] = by[q]["xyz"], by[p]["xyz"]
+    return atoms
+
+
+def set_bond_length(atoms, res_index, a, b, length):
+    """move atom b of the residue along a->b so that |ab| = length"""
+    by = {x["name"]: x for x in atoms if x.get("res_index") == res_index}
+    if a in by and b in by:
+        v = by[b]["xyz"] - by[a]["xyz"]
+        by[b]["xyz"] = by[a]["xyz"] + v / np.linalg.norm(v) * length
+    return atoms
